@@ -36,7 +36,7 @@ from spyne.error import ValidationError
 from spyne.error import ResourceNotFoundError
 
 from spyne.model import ByteArray, File, Fault, ComplexModelBase, Array, Any, \
-    AnyDict, Uuid, Unicode, Integer
+    AnyDict, Uuid, Unicode, Integer, XmlAttribute
 
 _INF = float('inf')
 
@@ -189,6 +189,11 @@ class HierDictDocument(DictDocument):
             raise ValidationError([key, inst])
 
     def _from_dict_value(self, ctx, key, cls, inst, validator):
+        if issubclass(cls, XmlAttribute):
+            # outside xml an attribute is a member like any other: its own
+            # type is what is read and validated
+            cls = cls.type
+
         if validator is self.SOFT_VALIDATION:
             self.validate(key, cls, inst)
 
